@@ -12,7 +12,7 @@ namespace PsdVerif.PayloadCost
 open PsdVerif PsdVerif.Codec PsdVerif.PsdCost PsdVerif.Payload PsdVerif.Payload3 PsdVerif.Safe PsdVerif.SafeCost
 
 /-- a general `if`: both branches are runs -/
-macro "cite" : tactic => `(tactic| refine Cost.ite (fun _ => ?_) (fun _ => ?_))
+macro "cite" : tactic => `(tactic| (apply Cost.ite; all_goals try intro _))
 
 /-! ### nested runs -/
 
@@ -471,5 +471,633 @@ theorem LinkedLayers.decC_cost (tb : Descriptor.Tables) : CostR 66 70 0 (LinkedL
 theorem LinkedLayers.cc_c (tb : Descriptor.Tables) : (LinkedLayers.cc tb).c = LinkedLayers.codec tb := rfl
 theorem LinkedLayers.cc_sound (tb : Descriptor.Tables) : (LinkedLayers.cc tb).Sound :=
   CC.hand_sound (LinkedLayers.decC_fst tb) (LinkedLayers.decC_cost tb)
+
+/-! ## adjustment_layers.py: ColorLookup; vector.py: VectorStrokeContentSetting -/
+
+open PsdVerif.DescriptorCost in
+theorem ColorLookup.decC_fst (tb : Descriptor.Tables) (d : B) (p : Nat) :
+    (ColorLookup.decC tb d p).1 = ColorLookup.dec tb d p := by
+  unfold ColorLookup.decC ColorLookup.dec
+  refine Er.bind (er_readUC 2) (fun ver => Er.bind (er_readUC 4) fun dv =>
+    Er.bind (er_readBodyC tb (er_decBodyC tb _)) fun x => ?_) d p
+  split
+  · exact Er.pure _
+  · exact Er.fail _
+
+open PsdVerif.DescriptorCost in
+theorem ColorLookup.decC_cost (tb : Descriptor.Tables) : CostR 4 8 18 (ColorLookup.decC tb) := by
+  intro d p hp
+  apply Cost.mono
+  case h =>
+    unfold ColorLookup.decC
+    rb (readUC_cost 2)
+    rb (readUC_cost 4)
+    rb (readBodyC_cost tb (fun t q hq => decBodyC_inv tb _ t q hq) _ (by assumption))
+    split
+    · exact Cost.rpure _ (by assumption)
+    · exact Cost.rfail 0 (by decide)
+  all_goals decide
+
+theorem ColorLookup.cc_c (tb : Descriptor.Tables) (pad : Nat) : (ColorLookup.cc tb pad).c = ColorLookup.codec tb pad := rfl
+theorem ColorLookup.cc_sound (tb : Descriptor.Tables) (pad : Nat) : (ColorLookup.cc tb pad).Sound :=
+  CC.hand_sound (ColorLookup.decC_fst tb) (ColorLookup.decC_cost tb)
+
+open PsdVerif.DescriptorCost in
+theorem VectorStrokeContentSetting.decC_fst (tb : Descriptor.Tables) (d : B) (p : Nat) :
+    (VectorStrokeContentSetting.decC tb d p).1 = VectorStrokeContentSetting.dec tb d p := by
+  unfold VectorStrokeContentSetting.decC VectorStrokeContentSetting.dec
+  exact Er.bind (er_readNC 4) (fun key => Er.bind (er_readUC 4) fun ver =>
+    Er.bind (er_readBodyC tb (er_decBodyC tb _)) fun x => Er.pure _) d p
+
+open PsdVerif.DescriptorCost in
+theorem VectorStrokeContentSetting.decC_cost (tb : Descriptor.Tables) : CostR 4 8 20 (VectorStrokeContentSetting.decC tb) := by
+  intro d p hp
+  apply Cost.mono
+  case h =>
+    unfold VectorStrokeContentSetting.decC
+    rb (readNC_cost 4)
+    rb (readUC_cost 4)
+    rb (readBodyC_cost tb (fun t q hq => decBodyC_inv tb _ t q hq) _ (by assumption))
+    exact Cost.rpure _ (by assumption)
+  all_goals decide
+
+theorem VectorStrokeContentSetting.cc_c (tb : Descriptor.Tables) (pad : Nat) :
+    (VectorStrokeContentSetting.cc tb pad).c = VectorStrokeContentSetting.codec tb pad := rfl
+theorem VectorStrokeContentSetting.cc_sound (tb : Descriptor.Tables) (pad : Nat) : (VectorStrokeContentSetting.cc tb pad).Sound :=
+  CC.hand_sound (VectorStrokeContentSetting.decC_fst tb) (VectorStrokeContentSetting.decC_cost tb)
+
+/-! ## image_resources.py: the descriptor blocks as payloads -/
+
+theorem DescriptorResource.cc_c (tb : Descriptor.Tables) : (DescriptorResource.cc tb).c = DescriptorResource.codec tb := rfl
+theorem DescriptorResource.cc_sound (tb : Descriptor.Tables) : (DescriptorResource.cc tb).Sound :=
+  CC.hand_sound (DescriptorCost.Block.decC_fst tb) (DescriptorCost.Block.decC_cost tb)
+
+theorem Descriptor2Payload.cc_c (tb : Descriptor.Tables) (pad : Nat) :
+    (Descriptor2Payload.cc tb pad).c = Descriptor2Payload.codec tb pad := rfl
+theorem Descriptor2Payload.cc_sound (tb : Descriptor.Tables) (pad : Nat) : (Descriptor2Payload.cc tb pad).Sound :=
+  CC.hand_sound (DescriptorCost.Block2.decC_fst tb) (DescriptorCost.Block2.decC_cost tb)
+
+theorem DescriptorPayload.cc_c (tb : Descriptor.Tables) (pad : Nat) :
+    (DescriptorPayload.cc tb pad).c = DescriptorPayload.codec tb pad := rfl
+theorem DescriptorPayload.cc_sound (tb : Descriptor.Tables) (pad : Nat) : (DescriptorPayload.cc tb pad).Sound :=
+  CC.hand_sound (DescriptorCost.Block.decC_fst tb) (DescriptorCost.Block.decC_cost tb)
+
+/-! ## image_resources.py: Slices / SlicesV6 / SliceV6
+
+`SliceV6.read` ends with a SPECULATIVE `DescriptorBlock.read` that is undone (`fp.seek(current_position)`) when it raises
+`ValueError` / `IOError` or returns a block whose classID is four zero bytes. An attempt that is undone consumed nothing,
+yet it may have read everything that was left in the stream (`read_unicode_string`: `fp.read(2 * count)` with a `count`
+taken from the data). So a slice that SUCCEEDS is not paid by the bytes it consumed: the judgement `Cost` fails for
+`SliceV6`, and what holds is `Weak`: ticks + bytes ≤ a · (bytes LEFT) + b whatever the outcome. `SlicesV6` then runs
+`for _ in range(count): SliceV6.read(fp)`: every slice consumes ≥ 69 bytes, and every slice may scan the rest of the
+stream: the bound is QUADRATIC in the bytes left (`Quad`), not linear. -/
+
+/-- paid by the bytes that were LEFT, also when the run succeeds (which then consumed ≥ `k` bytes) -/
+def Weak {β : Type} (a b k : Nat) (d : B) (p : Nat) (x : CE (β × Nat)) : Prop :=
+  match x.1 with
+  | .ok (_, p') => p + k ≤ p' ∧ p' ≤ d.length ∧ x.2.w ≤ a * (d.length - p) + b
+  | .error e => e ≠ .other ∧ x.2.w ≤ a * (d.length - p) + b
+
+theorem Weak.of_ok {β : Type} {a b k : Nat} {d : B} {p : Nat} {x : CE (β × Nat)} {v : β} {p' : Nat}
+    (h : Weak a b k d p x) (hx : x.1 = .ok (v, p')) : p + k ≤ p' ∧ p' ≤ d.length ∧ x.2.w ≤ a * (d.length - p) + b := by
+  unfold Weak at h; rw [hx] at h; exact h
+
+theorem Weak.of_error {β : Type} {a b k : Nat} {d : B} {p : Nat} {x : CE (β × Nat)} {e : Err}
+    (h : Weak a b k d p x) (hx : x.1 = .error e) : e ≠ .other ∧ x.2.w ≤ a * (d.length - p) + b := by
+  unfold Weak at h; rw [hx] at h; exact h
+
+theorem Weak.intro {β : Type} {a b k : Nat} {d : B} {p : Nat} {x : CE (β × Nat)}
+    (hok : ∀ v p', x.1 = .ok (v, p') → p + k ≤ p' ∧ p' ≤ d.length ∧ x.2.w ≤ a * (d.length - p) + b)
+    (herr : ∀ e, x.1 = .error e → e ≠ .other ∧ x.2.w ≤ a * (d.length - p) + b) : Weak a b k d p x := by
+  unfold Weak
+  cases hx : x.1 with
+  | error e => exact herr e hx
+  | ok y => obtain ⟨v, p'⟩ := y; exact hok v p' hx
+
+theorem Weak.w_le {β : Type} {a b k : Nat} {d : B} {p : Nat} {x : CE (β × Nat)} (h : Weak a b k d p x) :
+    x.2.w ≤ a * (d.length - p) + b := by
+  cases hx : x.1 with
+  | error e => exact (h.of_error hx).2
+  | ok y => obtain ⟨v, p'⟩ := y; exact (h.of_ok hx).2.2
+
+theorem Weak.ne_other {β : Type} {a b k : Nat} {d : B} {p : Nat} {x : CE (β × Nat)} (h : Weak a b k d p x) :
+    x.1 ≠ .error .other := fun hx => (h.of_error hx).1 rfl
+
+theorem Weak.of_cost {β : Type} {a b k : Nat} {d : B} {p : Nat} {x : CE (β × Nat)} (h : Cost a b k d p x) :
+    Weak a b k d p x := by
+  refine Weak.intro (fun v p' hx => ?_) (fun e hx => h.of_error hx)
+  have h1 := h.of_ok hx
+  have : a * (p' - p) ≤ a * (d.length - p) := Nat.mul_le_mul_left a (by omega)
+  exact ⟨h1.1, h1.2.1, by omega⟩
+
+theorem Weak.mono {β : Type} {a a' b b' k k' : Nat} {d : B} {p : Nat} {x : CE (β × Nat)}
+    (h : Weak a' b' k' d p x) (ha : a' ≤ a) (hb : b' ≤ b) (hk : k ≤ k') : Weak a b k d p x := by
+  have : a' * (d.length - p) ≤ a * (d.length - p) := Nat.mul_le_mul_right _ ha
+  refine Weak.intro (fun v p' hx => ?_) (fun e hx => ?_)
+  · have h1 := h.of_ok hx
+    exact ⟨by omega, h1.2.1, by omega⟩
+  · have h1 := h.of_error hx
+    exact ⟨h1.1, by omega⟩
+
+/-- a prefix that obeys `Cost`, then a continuation that obeys `Weak` -/
+theorem Weak.bind {α β : Type} {a₁ a₂ b₁ b₂ k₁ k₂ : Nat} {d : B} {p : Nat} {m : CE (β × Nat)}
+    {f : β × Nat → CE (α × Nat)} (hm : Cost a₁ b₁ k₁ d p m)
+    (hf : ∀ v p₁, m.1 = .ok (v, p₁) → p₁ ≤ d.length → Weak a₂ b₂ k₂ d p₁ (f (v, p₁))) :
+    Weak (max a₁ a₂) (b₁ + b₂) (k₁ + k₂) d p (m >>= f) := by
+  have hm' := hm.mono (Nat.le_max_left a₁ a₂) (Nat.le_refl _) (Nat.le_refl _)
+  cases hm1 : m.1 with
+  | error e =>
+    rw [bind_err' hm1]
+    refine Weak.intro (fun _ _ hx => by cases hx) (fun e' hx => ?_)
+    cases hx
+    have h1 := hm'.of_error hm1
+    exact ⟨h1.1, by show m.2.w ≤ _; omega⟩
+  | ok y =>
+    obtain ⟨v, p₁⟩ := y
+    have h1 := hm'.of_ok hm1
+    have h2' := (hf v p₁ hm1 h1.2.1).mono (Nat.le_max_right a₁ a₂) (Nat.le_refl _) (Nat.le_refl _)
+    rw [bind_ok' hm1]
+    have hs := mul_split (max a₁ a₂) (x := p₁ - p) (y := d.length - p₁) (z := d.length - p) (by omega)
+    refine Weak.intro (fun v' p' hx => ?_) (fun e' hx => ?_)
+    · have h2 := h2'.of_ok hx
+      refine ⟨by omega, h2.2.1, ?_⟩
+      show (m.2 + (f (v, p₁)).2).w ≤ _
+      rw [w_add]
+      omega
+    · have h2 := h2'.of_error hx
+      refine ⟨h2.1, ?_⟩
+      show (m.2 + (f (v, p₁)).2).w ≤ _
+      rw [w_add]
+      omega
+
+/-- a step of bounded cost that does not move the cursor (a peek, a condition) -/
+theorem Weak.step {α γ : Type} {a b k n : Nat} {d : B} {p : Nat} {m : CE γ} {f : γ → CE (α × Nat)}
+    (hm : m.2.w ≤ n) (hne : m.1 ≠ .error .other) (hf : ∀ y, m.1 = .ok y → Weak a b k d p (f y)) :
+    Weak a (n + b) k d p (m >>= f) := by
+  cases hm1 : m.1 with
+  | error e =>
+    rw [bind_err' hm1]
+    refine Weak.intro (fun _ _ hx => by cases hx) (fun e' hx => ?_)
+    cases hx
+    refine ⟨fun h => hne (by rw [hm1, h]), ?_⟩
+    show m.2.w ≤ _
+    omega
+  | ok y =>
+    have h2' := hf y hm1
+    rw [bind_ok' hm1]
+    refine Weak.intro (fun v' p' hx => ?_) (fun e' hx => ?_)
+    · have h2 := h2'.of_ok hx
+      refine ⟨h2.1, h2.2.1, ?_⟩
+      show (m.2 + (f y).2).w ≤ _
+      rw [w_add]
+      omega
+    · have h2 := h2'.of_error hx
+      refine ⟨h2.1, ?_⟩
+      show (m.2 + (f y).2).w ≤ _
+      rw [w_add]
+      omega
+
+/-- the last statement builds the value: no read, same cursor -/
+theorem Weak.bind_pure {α β : Type} {a b k : Nat} {d : B} {p : Nat} {m : CE (β × Nat)} {f : β × Nat → CE (α × Nat)}
+    (hm : Weak a b k d p m) (hf : ∀ v p₁, (f (v, p₁)).2.w = 0 ∧ ∃ v', (f (v, p₁)).1 = .ok (v', p₁)) :
+    Weak a b k d p (m >>= f) := by
+  cases hm1 : m.1 with
+  | error e =>
+    rw [bind_err' hm1]
+    refine Weak.intro (fun _ _ hx => by cases hx) (fun e' hx => ?_)
+    cases hx
+    exact hm.of_error hm1
+  | ok y =>
+    obtain ⟨v, p₁⟩ := y
+    have h1 := hm.of_ok hm1
+    obtain ⟨hw, v', hv⟩ := hf v p₁
+    rw [bind_ok' hm1]
+    refine Weak.intro (fun v'' p' hx => ?_) (fun e' hx => ?_)
+    · have hx' : (f (v, p₁)).1 = .ok (v'', p') := hx
+      rw [hv] at hx'
+      cases hx'
+      refine ⟨h1.1, h1.2.1, ?_⟩
+      show (m.2 + (f (v, p₁)).2).w ≤ _
+      rw [w_add, hw]
+      omega
+    · have hx' : (f (v, p₁)).1 = .error e' := hx
+      rw [hv] at hx'
+      cases hx'
+
+/-- `wbind h`: the next statement obeys `Cost` with `h`, the rest of the block obeys `Weak` -/
+macro "wbind " t:term : tactic => `(tactic| (apply Weak.bind $t; intro _ _ _ _; try dsimp only))
+
+theorem readUC_w_le (w : Nat) (d : B) (p : Nat) : (readUC w d p).2.w ≤ w + 1 := by
+  unfold readUC
+  have h0 : (readNC w d p).2.w = 1 + min w (d.length - p) := rfl
+  cases h : (readNC w d p).1 with
+  | error e =>
+    rw [bind_err' h]
+    show (readNC w d p).2.w ≤ _
+    omega
+  | ok y =>
+    obtain ⟨bs, p'⟩ := y
+    rw [bind_ok' h]
+    show ((readNC w d p).2 + (CE.ok (beVal bs, p') : CE (Nat × Nat)).2).w ≤ _
+    rw [w_add, ok_w]
+    omega
+
+/-! ### SliceV6 -/
+
+theorem SliceV6.peekDataC_fst (tb : Descriptor.Tables) (d : B) (p : Nat) :
+    (SliceV6.peekDataC tb d p).1 = SliceV6.peekData tb d p := by
+  unfold SliceV6.peekDataC SliceV6.peekData
+  refine erase_ok (isReadableC_fst 4 d p) ?_
+  split
+  · rw [bind_fst, readUC_fst]
+    cases readU 4 d p with
+    | error e => rfl
+    | ok y =>
+      obtain ⟨version, q⟩ := y
+      dsimp only
+      by_cases hv : version = 16
+      · rw [if_pos hv]
+        split
+        · unfold SliceV6.tryBlockC
+          dsimp only
+          rw [DescriptorCost.Block.decC_fst]
+          cases Descriptor.Block.dec tb d p with
+          | ok z => obtain ⟨blk, p'⟩ := z; rfl
+          | error e => cases e <;> rfl
+        · contradiction
+      · rw [if_neg hv]
+        split
+        · contradiction
+        · rfl
+  · rfl
+
+/-- the attempt: at most `4 · (bytes left) + 7`, whether its result is kept or undone -/
+theorem SliceV6.tryBlockC_weak (tb : Descriptor.Tables) {d : B} {p : Nat} (hp : p ≤ d.length) :
+    Weak 4 7 0 d p (SliceV6.tryBlockC tb d p) := by
+  have ha := DescriptorCost.Block.decC_cost tb d p hp
+  have hw := ha.w_le
+  unfold SliceV6.tryBlockC
+  refine Weak.intro (fun v p' hx => ?_) (fun e hx => ?_)
+  · refine ⟨?_, ?_, hw⟩
+    all_goals
+      dsimp only at hx
+      split at hx
+      · rename_i blk p'' hb
+        have h1 := ha.of_ok hb
+        split at hx <;> cases hx <;> omega
+      all_goals first | (cases hx; omega) | cases hx
+  · refine ⟨?_, hw⟩
+    dsimp only at hx
+    split at hx
+    · split at hx <;> cases hx
+    · cases hx
+    · cases hx
+    · cases hx
+    · rename_i e' hb
+      cases hx
+      exact (ha.of_error hb).1
+
+/-- the speculative read: at most `4 · (bytes left) + 17`, whether its result is kept or undone -/
+theorem SliceV6.peekDataC_weak (tb : Descriptor.Tables) {d : B} {p : Nat} (hp : p ≤ d.length) :
+    Weak 4 17 0 d p (SliceV6.peekDataC tb d p) := by
+  unfold SliceV6.peekDataC
+  refine Weak.step (n := 5) (a := 4) (b := 12) (by rw [isReadableC_w']; omega) (by intro h; cases h) fun r _ => ?_
+  split
+  · refine Weak.step (n := 5) (a := 4) (b := 7) (readUC_w_le 4 d p) (readUC_cost 4).ne_other fun y _ => ?_
+    obtain ⟨version, q⟩ := y
+    dsimp only
+    split
+    · exact SliceV6.tryBlockC_weak tb hp
+    · exact (Weak.of_cost (Cost.ok _ hp)).mono (by decide) (by decide) (by decide)
+  · exact (Weak.of_cost (Cost.ok _ hp)).mono (by decide) (by decide) (by decide)
+
+theorem SliceV6.assocDecC_fst (head : Row) (d : B) (p : Nat) : (SliceV6.assocDecC head d p).1 = SliceV6.assocDec head d p := by
+  unfold SliceV6.assocDecC SliceV6.assocDec
+  split
+  · rw [bind_fst, fmtDecC_fst]
+    cases fmtDec [U 4] d p with
+    | error e => rfl
+    | ok y => obtain ⟨r, p'⟩ := y; rfl
+  · rfl
+
+theorem SliceV6.assocDecC_cost (head : Row) : CostR 1 1 0 (SliceV6.assocDecC head) := by
+  intro d p hp
+  apply Cost.mono
+  case h =>
+    unfold SliceV6.assocDecC
+    cite
+    · cbind (fmtDecC_cost [U 4])
+      cdone
+    · cdone
+  cside
+
+theorem SliceV6.decC_fst (tb : Descriptor.Tables) (d : B) (p : Nat) : (SliceV6.decC tb d p).1 = SliceV6.dec tb d p := by
+  unfold SliceV6.decC SliceV6.dec
+  refine erase_bind (fmtDecC_fst ..) fun ⟨head, p⟩ => ?_
+  refine erase_bind (SliceV6.assocDecC_fst ..) fun ⟨assoc, p⟩ => ?_
+  refine erase_bind (readUStrC_fst 1 ..) fun ⟨name, p⟩ => ?_
+  refine erase_bind (fmtDecC_fst ..) fun ⟨st, p⟩ => ?_
+  refine erase_bind (fmtDecC_fst ..) fun ⟨bbox, p⟩ => ?_
+  refine erase_bind (readUStrC_fst 1 ..) fun ⟨url, p⟩ => ?_
+  refine erase_bind (readUStrC_fst 1 ..) fun ⟨target, p⟩ => ?_
+  refine erase_bind (readUStrC_fst 1 ..) fun ⟨message, p⟩ => ?_
+  refine erase_bind (readUStrC_fst 1 ..) fun ⟨altTag, p⟩ => ?_
+  refine erase_bind (fmtDecC_fst ..) fun ⟨html, p⟩ => ?_
+  refine erase_bind (readUStrC_fst 1 ..) fun ⟨cellText, p⟩ => ?_
+  refine erase_bind (fmtDecC_fst ..) fun ⟨align, p⟩ => ?_
+  refine erase_bind (fmtDecC_fst ..) fun ⟨argb, p⟩ => ?_
+  refine erase_bind (SliceV6.peekDataC_fst ..) fun ⟨data, p⟩ => ?_
+  rfl
+
+/-- one slice: `4 · (bytes LEFT) + 42`; when it succeeds it consumed ≥ 69 bytes -/
+theorem SliceV6.decC_weak (tb : Descriptor.Tables) {d : B} {p : Nat} (hp : p ≤ d.length) :
+    Weak 4 42 69 d p (SliceV6.decC tb d p) := by
+  apply Weak.mono
+  case h =>
+    unfold SliceV6.decC
+    wbind (fmtDecC_cost SliceV6.headFmt)
+    wbind (SliceV6.assocDecC_cost _ d _ (by assumption))
+    wbind (readUStrC_cost 1)
+    wbind (fmtDecC_cost [U 4])
+    wbind (fmtDecC_cost SliceV6.bboxFmt)
+    wbind (readUStrC_cost 1)
+    wbind (readUStrC_cost 1)
+    wbind (readUStrC_cost 1)
+    wbind (readUStrC_cost 1)
+    wbind (fmtDecC_cost [Q])
+    wbind (readUStrC_cost 1)
+    wbind (fmtDecC_cost [U 4, U 4])
+    wbind (fmtDecC_cost SliceV6.argbFmt)
+    exact Weak.bind_pure (SliceV6.peekDataC_weak tb (by assumption)) (fun _ _ => ⟨rfl, _, rfl⟩)
+  all_goals decide
+
+/-- the statement in plain words: whatever the outcome, at most `4 · (bytes left) + 42`, and no loop ran out of fuel -/
+theorem SliceV6.decC_left (tb : Descriptor.Tables) (d : B) (p : Nat) (hp : p ≤ d.length) :
+    (SliceV6.decC tb d p).2.w ≤ 4 * (d.length - p) + 42 ∧ (SliceV6.decC tb d p).1 ≠ .error .other :=
+  ⟨(SliceV6.decC_weak tb hp).w_le, (SliceV6.decC_weak tb hp).ne_other⟩
+
+/-! ### SlicesV6 / Slices: quadratic -/
+
+/-- ticks + bytes ≤ (bytes left + 1) · (a · (bytes left) + b), whatever the outcome -/
+def Quad {β : Type} (a b : Nat) (d : B) (p : Nat) (x : CE (β × Nat)) : Prop :=
+  match x.1 with
+  | .ok (_, p') => p ≤ p' ∧ p' ≤ d.length ∧ x.2.w ≤ (d.length - p + 1) * (a * (d.length - p) + b)
+  | .error e => e ≠ .other ∧ x.2.w ≤ (d.length - p + 1) * (a * (d.length - p) + b)
+
+theorem Quad.of_ok {β : Type} {a b : Nat} {d : B} {p : Nat} {x : CE (β × Nat)} {v : β} {p' : Nat}
+    (h : Quad a b d p x) (hx : x.1 = .ok (v, p')) :
+    p ≤ p' ∧ p' ≤ d.length ∧ x.2.w ≤ (d.length - p + 1) * (a * (d.length - p) + b) := by
+  unfold Quad at h; rw [hx] at h; exact h
+
+theorem Quad.of_error {β : Type} {a b : Nat} {d : B} {p : Nat} {x : CE (β × Nat)} {e : Err}
+    (h : Quad a b d p x) (hx : x.1 = .error e) :
+    e ≠ .other ∧ x.2.w ≤ (d.length - p + 1) * (a * (d.length - p) + b) := by
+  unfold Quad at h; rw [hx] at h; exact h
+
+theorem Quad.intro {β : Type} {a b : Nat} {d : B} {p : Nat} {x : CE (β × Nat)}
+    (hok : ∀ v p', x.1 = .ok (v, p') → p ≤ p' ∧ p' ≤ d.length ∧ x.2.w ≤ (d.length - p + 1) * (a * (d.length - p) + b))
+    (herr : ∀ e, x.1 = .error e → e ≠ .other ∧ x.2.w ≤ (d.length - p + 1) * (a * (d.length - p) + b)) :
+    Quad a b d p x := by
+  unfold Quad
+  cases hx : x.1 with
+  | error e => exact herr e hx
+  | ok y => obtain ⟨v, p'⟩ := y; exact hok v p' hx
+
+theorem Quad.w_le {β : Type} {a b : Nat} {d : B} {p : Nat} {x : CE (β × Nat)} (h : Quad a b d p x) :
+    x.2.w ≤ (d.length - p + 1) * (a * (d.length - p) + b) := by
+  cases hx : x.1 with
+  | error e => exact (h.of_error hx).2
+  | ok y => obtain ⟨v, p'⟩ := y; exact (h.of_ok hx).2.2
+
+theorem Quad.ne_other {β : Type} {a b : Nat} {d : B} {p : Nat} {x : CE (β × Nat)} (h : Quad a b d p x) :
+    x.1 ≠ .error .other := fun hx => (h.of_error hx).1 rfl
+
+/-- the bound grows with both constants and with the bytes left -/
+theorem quad_mono {a a' b b' r r' : Nat} (ha : a ≤ a') (hb : b ≤ b') (hr : r ≤ r') :
+    (r + 1) * (a * r + b) ≤ (r' + 1) * (a' * r' + b') :=
+  Nat.mul_le_mul (by omega) (Nat.add_le_add (Nat.mul_le_mul ha hr) hb)
+
+theorem Quad.mono {β : Type} {a a' b b' : Nat} {d : B} {p : Nat} {x : CE (β × Nat)}
+    (h : Quad a' b' d p x) (ha : a' ≤ a) (hb : b' ≤ b) : Quad a b d p x := by
+  have hq := quad_mono (r := d.length - p) ha hb (Nat.le_refl _)
+  refine Quad.intro (fun v p' hx => ?_) (fun e hx => ?_)
+  · have h1 := h.of_ok hx
+    exact ⟨h1.1, h1.2.1, Nat.le_trans h1.2.2 hq⟩
+  · have h1 := h.of_error hx
+    exact ⟨h1.1, Nat.le_trans h1.2 hq⟩
+
+theorem Quad.of_weak {β : Type} {a b k : Nat} {d : B} {p : Nat} {x : CE (β × Nat)} (h : Weak a b k d p x) :
+    Quad a b d p x := by
+  have hq : a * (d.length - p) + b ≤ (d.length - p + 1) * (a * (d.length - p) + b) :=
+    Nat.le_mul_of_pos_left _ (by omega)
+  refine Quad.intro (fun v p' hx => ?_) (fun e hx => ?_)
+  · have h1 := h.of_ok hx
+    exact ⟨by omega, h1.2.1, Nat.le_trans h1.2.2 hq⟩
+  · have h1 := h.of_error hx
+    exact ⟨h1.1, Nat.le_trans h1.2 hq⟩
+
+theorem Quad.of_cost {β : Type} {a b k : Nat} {d : B} {p : Nat} {x : CE (β × Nat)} (h : Cost a b k d p x) :
+    Quad a b d p x := Quad.of_weak (Weak.of_cost h)
+
+/-- `for _ in range(n)` over items that obey `Weak` and consume ≥ 1 byte when they succeed: at most `bytes left`
+iterations succeed, each costs at most `a · (bytes left) + b + 1` -/
+theorem readCountC_quad {α : Type} {item : RC α} {a b k : Nat} {d : B}
+    (hi : ∀ p, p ≤ d.length → Weak a b k d p (item d p)) (hk : 1 ≤ k) (n : Nat) (p : Nat) (hp : p ≤ d.length) :
+    Quad a (b + 1) d p (readCountC item n d p) := by
+  induction n generalizing p with
+  | zero =>
+    unfold readCountC Quad
+    exact ⟨Nat.le_refl _, hp, Nat.zero_le _⟩
+  | succ n ih =>
+    unfold readCountC
+    rw [bind_ok' tick_fst]
+    have hX : (d.length - p + 1) * (a * (d.length - p) + (b + 1)) =
+        (d.length - p) * (a * (d.length - p) + (b + 1)) + (a * (d.length - p) + (b + 1)) := Nat.succ_mul _ _
+    cases h1 : (item d p).1 with
+    | error e' =>
+      rw [bind_err' h1]
+      have i1 := (hi p hp).of_error h1
+      unfold Quad
+      refine ⟨i1.1, ?_⟩
+      show (PsdCost.tick.2 + (item d p).2).w ≤ _
+      rw [w_add, tick_w, hX]
+      omega
+    | ok y =>
+      obtain ⟨a1, p1⟩ := y
+      have i1 := (hi p hp).of_ok h1
+      rw [bind_ok' h1]
+      dsimp only
+      have hrest : (d.length - p1 + 1) * (a * (d.length - p1) + (b + 1)) ≤
+          (d.length - p) * (a * (d.length - p) + (b + 1)) :=
+        Nat.mul_le_mul (by omega) (Nat.add_le_add (Nat.mul_le_mul_left a (by omega)) (Nat.le_refl _))
+      cases h2 : (readCountC item n d p1).1 with
+      | error e' =>
+        rw [bind_err' h2]
+        have i2 := (ih p1 i1.2.1).of_error h2
+        unfold Quad
+        refine ⟨i2.1, ?_⟩
+        show (PsdCost.tick.2 + ((item d p).2 + (readCountC item n d p1).2)).w ≤ _
+        rw [w_add, w_add, tick_w, hX]
+        omega
+      | ok z =>
+        obtain ⟨as, p2⟩ := z
+        have i2 := (ih p1 i1.2.1).of_ok h2
+        rw [bind_ok' h2]
+        unfold Quad
+        refine ⟨by dsimp only; omega, i2.2.1, ?_⟩
+        show (PsdCost.tick.2 + ((item d p).2 + ((readCountC item n d p1).2 + (CE.ok (a1 :: as, p2) : CE (List α × Nat)).2))).w ≤ _
+        rw [w_add, w_add, w_add, tick_w, ok_w, hX]
+        omega
+
+/-- a prefix that obeys `Cost`, then a continuation that obeys `Quad` -/
+theorem Quad.bind {α β : Type} {a₁ a₂ b₁ b₂ k₁ : Nat} {d : B} {p : Nat} {m : CE (β × Nat)}
+    {f : β × Nat → CE (α × Nat)} (hm : Cost a₁ b₁ k₁ d p m)
+    (hf : ∀ v p₁, m.1 = .ok (v, p₁) → p₁ ≤ d.length → Quad a₂ b₂ d p₁ (f (v, p₁))) :
+    Quad a₂ (b₂ + (a₁ + b₁)) d p (m >>= f) := by
+  -- (r + 1) · (a₂ r + b₂ + a₁ + b₁) = (r + 1) · (a₂ r + b₂) + r · (a₁ + b₁) + (a₁ + b₁)
+  have hsplit : (d.length - p + 1) * (a₂ * (d.length - p) + (b₂ + (a₁ + b₁))) =
+      (d.length - p + 1) * (a₂ * (d.length - p) + b₂) + ((d.length - p) * a₁ + (d.length - p) * b₁ + (a₁ + b₁)) := by
+    rw [← Nat.add_assoc, Nat.mul_add (d.length - p + 1) (a₂ * (d.length - p) + b₂) (a₁ + b₁),
+      Nat.succ_mul (d.length - p) (a₁ + b₁), Nat.mul_add (d.length - p) a₁ b₁]
+  have hpre := hm.w_le
+  have hc : a₁ * (d.length - p) = (d.length - p) * a₁ := Nat.mul_comm _ _
+  cases hm1 : m.1 with
+  | error e =>
+    rw [bind_err' hm1]
+    refine Quad.intro (fun _ _ hx => by cases hx) (fun e' hx => ?_)
+    cases hx
+    have h1 := hm.of_error hm1
+    refine ⟨h1.1, ?_⟩
+    show m.2.w ≤ _
+    rw [hsplit]
+    omega
+  | ok y =>
+    obtain ⟨v, p₁⟩ := y
+    have h1 := hm.of_ok hm1
+    have h2' := hf v p₁ hm1 h1.2.1
+    rw [bind_ok' hm1]
+    have hq := quad_mono (a := a₂) (b := b₂) (r := d.length - p₁) (r' := d.length - p) (Nat.le_refl _) (Nat.le_refl _) (by omega)
+    refine Quad.intro (fun v' p' hx => ?_) (fun e' hx => ?_)
+    · have h2 := h2'.of_ok hx
+      refine ⟨by omega, h2.2.1, ?_⟩
+      show (m.2 + (f (v, p₁)).2).w ≤ _
+      rw [w_add, hsplit]
+      omega
+    · have h2 := h2'.of_error hx
+      refine ⟨h2.1, ?_⟩
+      show (m.2 + (f (v, p₁)).2).w ≤ _
+      rw [w_add, hsplit]
+      omega
+
+/-- the last statement builds the value: no read, same cursor -/
+theorem Quad.bind_pure {α β : Type} {a b : Nat} {d : B} {p : Nat} {m : CE (β × Nat)} {f : β × Nat → CE (α × Nat)}
+    (hm : Quad a b d p m) (hf : ∀ v p₁, (f (v, p₁)).2.w = 0 ∧ ∃ v', (f (v, p₁)).1 = .ok (v', p₁)) :
+    Quad a b d p (m >>= f) := by
+  cases hm1 : m.1 with
+  | error e =>
+    rw [bind_err' hm1]
+    refine Quad.intro (fun _ _ hx => by cases hx) (fun e' hx => ?_)
+    cases hx
+    exact hm.of_error hm1
+  | ok y =>
+    obtain ⟨v, p₁⟩ := y
+    have h1 := hm.of_ok hm1
+    obtain ⟨hw, v', hv⟩ := hf v p₁
+    rw [bind_ok' hm1]
+    refine Quad.intro (fun v'' p' hx => ?_) (fun e' hx => ?_)
+    · have hx' : (f (v, p₁)).1 = .ok (v'', p') := hx
+      rw [hv] at hx'
+      cases hx'
+      refine ⟨h1.1, h1.2.1, ?_⟩
+      show (m.2 + (f (v, p₁)).2).w ≤ _
+      rw [w_add, hw]
+      exact h1.2.2
+    · have hx' : (f (v, p₁)).1 = .error e' := hx
+      rw [hv] at hx'
+      cases hx'
+
+/-- `qbind h`: the next statement obeys `Cost` with `h`, the rest of the block obeys `Quad` -/
+macro "qbind " t:term : tactic => `(tactic| (apply Quad.bind $t; intro _ _ _ _; try dsimp only))
+
+theorem SlicesV6.decC_fst (tb : Descriptor.Tables) (d : B) (p : Nat) : (SlicesV6.decC tb d p).1 = SlicesV6.dec tb d p := by
+  unfold SlicesV6.decC SlicesV6.dec
+  refine erase_bind (fmtDecC_fst ..) fun ⟨bbox, p⟩ => ?_
+  refine erase_bind (readUStrC_fst 1 ..) fun ⟨name, p⟩ => ?_
+  refine erase_bind (readUC_fst ..) fun ⟨count, p⟩ => ?_
+  refine erase_bind (readCountC_fst (SliceV6.decC_fst tb) ..) fun ⟨items, p⟩ => ?_
+  rfl
+
+/-- `for _ in range(count): SliceV6.read(fp)`: quadratic in the bytes left, whatever the count -/
+theorem SlicesV6.decC_quad (tb : Descriptor.Tables) {d : B} {p : Nat} (hp : p ≤ d.length) :
+    Quad 4 51 d p (SlicesV6.decC tb d p) := by
+  apply Quad.mono
+  case h =>
+    unfold SlicesV6.decC
+    qbind (fmtDecC_cost SliceV6.bboxFmt)
+    qbind (readUStrC_cost 1)
+    qbind (readUC_cost 4)
+    exact Quad.bind_pure (readCountC_quad (fun q hq => SliceV6.decC_weak tb hq) (by decide) _ _ (by assumption))
+      (fun _ _ => ⟨rfl, _, rfl⟩)
+  all_goals decide
+
+theorem SlicesV6.decC_left (tb : Descriptor.Tables) (d : B) (p : Nat) (hp : p ≤ d.length) :
+    (SlicesV6.decC tb d p).2.w ≤ (d.length - p + 1) * (4 * (d.length - p) + 51) ∧
+    (SlicesV6.decC tb d p).1 ≠ .error .other :=
+  ⟨(SlicesV6.decC_quad tb hp).w_le, (SlicesV6.decC_quad tb hp).ne_other⟩
+
+theorem Slices.decC_fst (tb : Descriptor.Tables) (d : B) (p : Nat) : (Slices.decC tb d p).1 = Slices.dec tb d p := by
+  unfold Slices.decC Slices.dec
+  refine erase_bind (readUC_fst ..) fun ⟨version, p⟩ => ?_
+  dsimp only
+  split
+  · split
+    · refine erase_bind (SlicesV6.decC_fst ..) fun ⟨x, p⟩ => ?_
+      rfl
+    · refine erase_bind (DescriptorCost.Block.decC_fst ..) fun ⟨b, p⟩ => ?_
+      rfl
+  · rfl
+
+theorem Slices.decC_quad (tb : Descriptor.Tables) {d : B} {p : Nat} (_hp : p ≤ d.length) :
+    Quad 4 53 d p (Slices.decC tb d p) := by
+  apply Quad.mono
+  case h =>
+    unfold Slices.decC
+    qbind (readUC_cost 4)
+    split
+    · split
+      · exact Quad.bind_pure (SlicesV6.decC_quad tb (by assumption)) (fun _ _ => ⟨rfl, _, rfl⟩)
+      · exact (Quad.bind_pure (Quad.of_cost (DescriptorCost.Block.decC_cost tb d _ (by assumption)))
+          (fun _ _ => ⟨rfl, _, rfl⟩)).mono (Nat.le_refl _) (by decide)
+    · exact (Quad.of_cost (Cost.error 0 (by decide))).mono (by decide) (by decide)
+  all_goals decide
+
+theorem Slices.decC_left (tb : Descriptor.Tables) (d : B) (p : Nat) (hp : p ≤ d.length) :
+    (Slices.decC tb d p).2.w ≤ (d.length - p + 1) * (4 * (d.length - p) + 53) ∧
+    (Slices.decC tb d p).1 ≠ .error .other :=
+  ⟨(Slices.decC_quad tb hp).w_le, (Slices.decC_quad tb hp).ne_other⟩
+
+/-! ## the table of the unit -/
+
+/-- the classes of this unit that obey `Cost` (the shapes do not depend on the tables `tb`) -/
+def descTable (tb : Descriptor.Tables) : List (String × Sh) := [
+  ("MetadataSetting", (MetadataSetting.cc tb).sh),
+  ("MetadataSettings", (MetadataSettings.cc tb).sh),
+  ("SmartObjectLayerData", (SmartObjectLayerData.cc tb 4).sh),
+  ("PlacedLayerData", (PlacedLayerData.cc tb 4).sh),
+  ("TypeToolObjectSetting", (TypeToolObjectSetting.cc tb 4).sh),
+  ("LinkedLayer", (LinkedLayer.cc tb 1).sh),
+  ("LinkedLayers", (LinkedLayers.cc tb).sh),
+  ("ColorLookup", (ColorLookup.cc tb 4).sh),
+  ("VectorStrokeContentSetting", (VectorStrokeContentSetting.cc tb 4).sh),
+  ("DescriptorBlock", (DescriptorResource.cc tb).sh),
+  ("DescriptorBlock", (DescriptorPayload.cc tb 4).sh),
+  ("DescriptorBlock2", (Descriptor2Payload.cc tb 4).sh)]
+
+theorem desc_body_progress (tb : Descriptor.Tables) : (descTable tb).all (fun e => e.2.bodyProgress) = true := by
+  decide +revert
+
+/-- the classes of this unit that do NOT obey `Cost` (an undone speculative read is paid by nothing): for them
+`SliceV6.decC_left` (linear in the bytes LEFT), `SlicesV6.decC_left` and `Slices.decC_left` (QUADRATIC) are what holds -/
+def descNotLinear : List String := ["SliceV6", "SlicesV6", "Slices"]
 
 end PsdVerif.PayloadCost
